@@ -35,6 +35,9 @@ def run(ck, ctx):
     ck.rule("R15.7", "hand-written signed decimal parsers cover the whole range: a helper that turns wire digits into a signed integer does "
                      "not accumulate the magnitude in that same signed type and negate it afterwards (the minimum value, which every encoder "
                      "emits for Integer(i64::MIN), has no positive counterpart and would be rejected)")
+    ck.rule("R15.8", "reply encoders are payload-transparent: a function that encodes a RespValue (and what it calls) never writes a "
+                     "constant that is conditional on the payload's content (starts_with/contains/== on the text): such a rewrite makes "
+                     "an emitted value decode to something else (e.g. `NOSCRIPT ..` re-decoding as `ERR NOSCRIPT ..`)")
     ck.nd("prefix-stability and encode/decode identity for all values (needs execution or proof)")
     ck.assume("a dominating comparison against the input length is taken as a bound (its strength is not proven)")
     for cfg in ctx.configs:
@@ -48,6 +51,7 @@ def run(ck, ctx):
         _r157(ck, raw, cfg)
         _r155(ck, prog, cfg)
         prefix_rule(ck, prog, cfg, "R15.5")
+        _r158(ck, prog, cfg)
     _r156(ck, ctx)
 
 
@@ -639,3 +643,51 @@ def prefix_rule(ck, prog, cfg, rid):
                      "inside the frame (any fragmentation of a valid stream) is answered with a protocol error instead of waiting for the rest"
                      % (name, txt), f.where(t["ln"]), detail="protocol errors only behind the completeness test")
         ck.ok(rid, "%s:no-rejection-before-complete%s" % (name, _tag(cfg)), "%d late error exits, all behind the completeness test" % n)
+
+
+WRITES = (r"BufMut>::put_(u8|slice)$", r"BytesMut::(extend_from_slice|put_slice|put_u8)$", r"Vec::<u8>::(push|extend_from_slice)$",
+          r"Extend<.*>>::extend$", r"String::(push|push_str)$", r"Write>::write_all$")
+CONTENT_TESTS = (r"str>::starts_with", r"str>::ends_with", r"str>::contains", r"str>::find", r"str>::strip_prefix", r"eq_ignore_ascii_case$",
+                 r"<impl str>::(starts_with|ends_with|contains|find|strip_prefix)", r"<impl \[.*\]>::(starts_with|ends_with|contains)",
+                 )   # whole-value equality is not listed: `if s == "OK" { write b"+OK\r\n" }` can be a faithful constant encoding
+
+
+def _r158(ck, prog, cfg):
+    encs = [f for f in prog.lib_fns() if "{closure" not in f.id and "encode" in f.short
+            and any(isinstance(l, str) and re.match(r"&(redis::resp::RespValue|redis::resp_optimized::RespValueZeroCopy)$", l) for l in f.locals[1:1 + f.d["argc"]])]
+    ck.floor("R15.8-encoders" + _tag(cfg), len(encs), 4)
+    nw = 0
+    for e in encs:
+        # the encoder, its closures, and same-crate functions it calls (two levels)
+        seen, work = {}, [(e, 0)]
+        while work:
+            g, d = work.pop()
+            if g.id in seen:
+                continue
+            seen[g.id] = g
+            for c in prog.children(g):
+                work.append((c, d))
+            if d < 2:
+                for b, t in g.calls():
+                    h = prog.fns.get(t.get("res") or t.get("fn") or "")
+                    if h is not None and h.file.startswith("src/") and h.id not in seen:
+                        work.append((h, d + 1))
+        for g in seen.values():
+            for b, t in g.calls():
+                if not is_callee(t, *WRITES) or len(t["args"]) < 2:
+                    continue
+                nw += 1
+                a = src_of_operand(g, t["args"][1], through_calls=TRANSPARENT)
+                if a.kind != "const":
+                    continue
+                for gd in lib2.guards(g, b):
+                    sr = gd["src"]
+                    if sr is not None and sr.kind == "call" and is_callee(sr.term, *CONTENT_TESTS) and "RespValue" not in callee(sr.term):
+                        ck.bad("R15.8", "%s:%s:content-dependent-constant%s" % (e.short, g.short, _tag(cfg)),
+                               "while encoding a reply, %s writes the constant %s only when a test of the payload's text (%s) goes one way: the bytes on "
+                               "the wire are no longer the value's own bytes, and the reply decodes to a different value than the one emitted"
+                               % (g.short, (a.text or "")[:20], callee(sr.term).rsplit("::", 1)[-1]), g.where(t["ln"]))
+                        break
+        ck.ok("R15.8", "%s:transparent%s" % (e.short if e.short != "encode" else e.id.split("::")[-2] + "::encode", _tag(cfg)),
+              "%d function(s) behind it analysed" % len(seen))
+    ck.floor("R15.8-writes" + _tag(cfg), nw, 20)
